@@ -3,7 +3,7 @@
 //   L            lock(): take the write handle (private copy)          L!   ... T's copy constructor throws inside lock()
 //   w            write through the handle: value + 1                   g    read through the write handle
 //   U            release: destroy the write handle (publishes)         C    cancel()   (on a null handle: the no-op form)
-//   V            move-construct the write handle (twice: out and back)
+//   V            move-construct the write handle (twice: out and back), with a cancel() on the moved-from handle in between
 //   S | St | Sf | Su   lock_shared / try_lock_shared / try_lock_shared_for / try_lock_shared_until: keep the snapshot
 //   r            re-read every snapshot held (the value must be the one seen at the first read, the object alive)
 //   D            drop the oldest snapshot held                         (everything still held is dropped at thread end)
@@ -164,6 +164,9 @@ void thread_body(COW& g, const std::vector<std::string>& ops)
                 if (!h2 || wh->get() != nullptr) {
                     verif::fail("move construction of the write handle lost the object");
                 }
+                // cancel() on the MOVED-FROM handle: it owns neither the copy nor the writer lock, so this must be a
+                // no-op (no primitive event at all) while the moved-to handle keeps the lock
+                wh->cancel();
                 wh.emplace(std::move(h2));
                 verif::emit("ret move");
             }
